@@ -157,8 +157,36 @@ pub fn c10(a: &Analysis) -> Vec<Violation> {
                         continue;
                     }
                 }
-                // the peer's own verdict reached the canceller before any cancel PDU got through
-                None if overruled => continue,
+                // the peer's own verdict reached the canceller before any cancel PDU got through.
+                // That is a race only while the cancel can still be on its way: the canceller
+                // repeats its EOF(cancel) / Finished(cancel) every ACK timeout, `limit` times, and
+                // fewer than `limit` PDUs are lost in the whole run, so one of them gets through
+                // within the ladder. A verdict that the peer emitted after that ladder, with no
+                // cancel-conditioned PDU ever delivered to it, means the cancel was not pursued.
+                None if overruled => {
+                    if !put.unack {
+                        let ladder = sc.ents[ent].limit.max(1) as u64 * sc.ents[ent].t_ack.max(1) as u64 * 1_000_000 + 4 * sc.lat_us + 1_000_000;
+                        let verdict_sent = side
+                            .recvd
+                            .iter()
+                            .filter(|r| {
+                                r.seq > c.seq
+                                    && match r.pdu.as_ref().and_then(|p| crate::analysis::op_of(p)) {
+                                        Some(cfdp_core::pdu::Operations::Finished(f)) => f.condition != Condition::CancelReceived,
+                                        Some(cfdp_core::pdu::Operations::EoF(e)) => e.condition != Condition::CancelReceived && e.condition != Condition::NoError,
+                                        _ => false,
+                                    }
+                            })
+                            .filter_map(|r| a.sends.iter().find(|s| s.seq == r.send_seq).map(|s| s.vt))
+                            .min();
+                        if let Some(vs) = verdict_sent {
+                            if vs > c.vt + ladder {
+                                out.push(vv("C10", "cancel_not_pursued_to_a_reachable_peer", role.into(), format!("txn {:?}: cancel took effect at the {} at {}us; no cancel-conditioned PDU was ever delivered to the reachable peer, whose own verdict was only emitted at {}us (the canceller's ladder ends at {}us)", t.key, role, c.vt, vs, c.vt + ladder)));
+                            }
+                        }
+                    }
+                    continue;
+                }
                 None => {}
             }
             if !peer_side.existed {
@@ -299,6 +327,17 @@ fn build(ctx: &Ctx, tier: Tier, seed: u64) -> Vec<Job<'static>> {
                     x.script.push(Entry::Blackout { src: 1 - ent, dst: ent, from: p.clone(), until: Trigger::Never });
                     sweep.push(x);
                 }
+                // a data PDU lost as well (the receiver has a reason of its own to keep the
+                // transaction alive and to send NAKs), combined with the loss of the first
+                // cancel-conditioned PDU: an ACK or NAK that answers the pre-cancel exchange must not
+                // be taken for an answer to the cancel
+                for (fs, fd, kind, k) in [(0usize, 1usize, Kind::Eof, 1u32), (0, 1, Kind::Eof, 0), (1, 0, Kind::Fin, 0)] {
+                    let mut x = sc.clone();
+                    x.script.push(Entry::Fault { src: 0, dst: 1, sel: Sel::Kind(Kind::Fd, 0), act: Act::Drop });
+                    x.script.push(Entry::Fault { src: fs, dst: fd, sel: Sel::Kind(kind, k), act: Act::Drop });
+                    x.script.push(Entry::User { ent, op: UserOp::Cancel, put: 0, at: p.clone() });
+                    sweep.push(x);
+                }
                 // cancel at both sides
                 let mut x = sc.clone();
                 x.script.push(Entry::User { ent, op: UserOp::Cancel, put: 0, at: p.clone() });
@@ -368,7 +407,7 @@ pub fn check() -> Check {
     Check {
         prop: "C10",
         level: "fault_enumeration",
-        rule: "cancel-point sweep: per grid configuration (both modes, closure on/off, files of 0/1/1/3/6+ segments, link serialisation 1 ms per PDU) Cancel.request at the sender or the receiver before the first and after every PDU of the fault-free exchange x {no loss, first or second EOF / ACK(EOF) / Finished / ACK(Finished) lost}, x blackout of A>B, B>A or both from the cancel on, x cancel at both sides; plus seeded wild scripts with one cancel; non-trivial = a user operation landed or a fault fired; distinct = distinct history fingerprint",
+        rule: "cancel-point sweep: per grid configuration (both modes, closure on/off, files of 0/1/1/3/6+ segments, link serialisation 1 ms per PDU) Cancel.request at the sender or the receiver before the first and after every PDU of the fault-free exchange x {no loss, first or second EOF / ACK(EOF) / Finished / ACK(Finished) lost}, x blackout of A>B, B>A or both from the cancel on, x cancel at both sides, x {first data PDU lost and first / second EOF or first Finished lost}; plus seeded wild scripts with one cancel; non-trivial = a user operation landed or a fault fired; distinct = distinct history fingerprint",
         assumptions: vec![
             "bound B(E) as in C03; the peer's bound is B(peer) + B(canceller)",
             "the peer clause is demanded for sender-initiated cancels (both modes) and receiver-initiated cancels in acknowledged mode, only if the cancel took effect before either side reported the transaction finished, the receiver had not completed, there is no blackout and fewer losses than the smaller limit",
